@@ -931,7 +931,38 @@ class Engine:
         return k(st, SFunc("lambda", (e, len(st.frames) - 1, fr)))
 
     def ev_ListComp(self, e, st, fr, k):
+        c = getattr(fr, "contract", None)
+        if c is not None and getattr(c, "comp_loops", None) and not st.spec:
+            # a comprehension whose element expression has effects (calls that allocate or raise): executed as the loop it
+            # abbreviates --  acc = []; for x in xs: acc.append(elt)  -- under a loop contract given for it (comp_loops[k], k-th
+            # list comprehension of the function in source order)
+            ordn = self.comp_ordinal(fr, e)
+            lc = c.comp_loops.get(ordn)
+            if lc is not None and len(e.generators) == 1 and not e.generators[0].ifs:
+                acc = lc.get("acc", f"comp{ordn}")
+                g = e.generators[0]
+                src = f"{acc} = []\nfor {ast.unparse(g.target)} in {ast.unparse(g.iter)}:\n    {acc}.append({ast.unparse(e.elt)})"
+                stmts = ast.parse(src).body
+                for nd in ast.walk(stmts[1]):
+                    ast.copy_location(nd, e)
+                ast.copy_location(stmts[0], e)
+                if lc.get("elemkind"):
+                    stmts[0].value._elemkind = lc["elemkind"]
+                stmts[1]._comp_contract = lc
+                return self.ex(stmts, st, fr, lambda s: k(s, self.lookup(acc, s, fr)))
         return bm.list_comp(self, e, st, fr, k)
+
+    def comp_ordinal(self, fr, node):
+        cache = getattr(fr.finfo, "_comp_ord", None)
+        if cache is None:
+            cache = {}
+            n = 0
+            for x in ast.walk(fr.finfo.node):
+                if isinstance(x, ast.ListComp):
+                    n += 1
+                    cache[id(x)] = n
+            fr.finfo._comp_ord = cache
+        return cache.get(id(node))
 
     def ev_DictComp(self, e, st, fr, k):
         return bm.dict_comp(self, e, st, fr, k)
